@@ -24,6 +24,11 @@ INVARIANT Emit
 BM_ID = 5
 
 
+def bm_id(mode, fam):
+    """the on-chain big_map: id 5, and id 0 (the first big_map of a chain is a big_map like any other) for the in-place families other than string"""
+    return 0 if (mode == 'existing' and fam != 'string') else BM_ID
+
+
 def zarith(n):
     """Micheline integer encoding, written independently of pytezos"""
     neg, n = n < 0, abs(n)
@@ -178,10 +183,10 @@ def run_impl(mode, chain, literal, hist, fam='string'):
     from pytezos.rpc.shell import ShellQuery
     from ..bigmapnode import BigMapNode
     keys = FAMILIES[fam][1]
-    node = BigMapNode({BM_ID: {key_hash(k, fam): {'string': VAL[v]} for k, v in chain.items() if v}})
+    node = BigMapNode({bm_id(mode, fam): {key_hash(k, fam): {'string': VAL[v]} for k, v in chain.items() if v}})
     parameter = {'prim': 'Unit'}
     if mode == 'existing':
-        bm = {'int': str(BM_ID)}
+        bm = {'int': str(bm_id(mode, fam))}
     elif mode == 'copy':
         bm, parameter = [], {'int': str(BM_ID)}
     else:
@@ -235,7 +240,7 @@ def compare(ctx, mode, chain, hist, obs, flat, literal, fam='string', expect=Non
     d = diffs[0]
     action = d['diff']['action']
     result = {k: 0 for k in chain} if mode == 'fresh' else dict(chain)
-    if action != want_action or (d['id'] == str(BM_ID)) != keeps_id or bm != {'int': d['id']}:
+    if action != want_action or (d['id'] == str(bm_id(mode, fam))) != keeps_id or bm != {'int': d['id']}:
         ctx.mismatch('C15:diff:action-or-id' + tag, '%s: diff action %s id %s, storage %s (model: %s, %s)' % (desc, action, d['id'], bm, want_action, 'same id' if keeps_id else 'new id'), case)
         ok = False
     if needs_source and str(d['diff'].get('source')) != str(BM_ID):
